@@ -120,7 +120,7 @@ EXTRA = {
     'C18': ' Histories also serialise the same module object twice, include a module whose claim spells out what its proof writes as notation, and two Metamath databases in which one token is a variable in one and a constant in the other; a child that fails only after a history counts as a violation. A database with three variables of the ambiguous sort #Variable is part of the order levels.',
     'C14': ' Loads use str(term) labels; the look-alike macro step of C04 is part of the alphabets.',
     'C15': ' The theorem is placed at top level, in a block, and in a block with a $d naming a variable it does not mention, with and without an earlier theorem over the same variables decoded by the same converter. Shipped compressed proofs are re-marked with one or two more Z at every position and executed through exec_proof: the claim must still be discharged. A database with the floating statements in the opposite order may be converted first in the same process.',
-    'C19': ' Pairs are also printed by a printer with no notation registered (the fallback rendering, which is str()), and applications that came about as instances of schematic applications are compared with the direct application with two arguments exchanged. Every notation is also applied to itself on the left and on the right (different patterns, differently printed arguments, so different text), and the constraint lists of MetaVar steps are compared with those of the instruction. Step correspondence at three calls also in quick (a step after a Pop that empties the stack); generated n-ary notations for symbol names with (escaped) braces.',
+    'C19': ' Pairs are also printed by a printer with no notation registered (the fallback rendering, which is str()), and applications that came about as instances of schematic applications are compared with the direct application with two arguments exchanged. Every notation is also applied to itself on the left and on the right (different patterns, differently printed arguments, so different text), and the constraint lists of MetaVar steps are compared with those of the instruction. Step correspondence at three calls also in quick (a step after a Pop that empties the stack); generated n-ary notations for symbol names with (escaped) braces. The string obligations also cover generated n-ary notations of arity 11 and 12 (two-digit placeholders), with the arguments other than the one asked about fixed to distinct constants.',
 }
 
 NOT_YET = {
